@@ -1276,7 +1276,13 @@ class Agent(dbus.service.Object):
         segments = []
         self.__logger.info('Transfer %d size %d relative to MTU %s',
                            item.transfer_id, len(data), mtu)
-        if mtu is None or len(data) <= mtu:
+        # No datagram can be larger than what UDP over IPv4 carries,
+        # whatever is (not) configured
+        udp_size_max = 65507
+        if mtu is None or mtu > udp_size_max:
+            mtu = udp_size_max
+
+        if len(data) <= mtu:
             segments = [data]
         else:
             # The base extension map with the largest values present
